@@ -431,14 +431,26 @@ def call(f, *a, **k):
         st.steps += 1
         if st.steps > st.step_budget:
             raise R.Hang()
-        st.funcs.add(f.__code__)
+        code = f.__code__
+        if code not in st.funcs:
+            if _foreign(f.__globals__):
+                # a Python function that is not instrumented (standard library): it may hand its arguments to
+                # C code that decides on characters
+                return _call_foreign(f, a, k)
+            st.funcs.add(code)
         return f(*a, **k)
     if tf is _MT:
         st = R.ST
         st.steps += 1
         if st.steps > st.step_budget:
             raise R.Hang()
-        st.funcs.add(getattr(f.__func__, '__code__', None))
+        fn = f.__func__
+        code = getattr(fn, '__code__', None)
+        if code is not None and code not in st.funcs:
+            g = fn.__globals__
+            if _foreign(g):
+                return _call_foreign(f, a, k)
+            st.funcs.add(code)
         return f(*a, **k)
     if tf is _BT:
         if id(f) in _FAST_BUILTINS:
@@ -515,6 +527,24 @@ def _call_builtin(f, slf, a, k):
     return f(*a, **k)
 
 
+def _foreign(g):
+    return '_sx' not in g and '__symtex_trusted__' not in g and not g.get('__name__', '').startswith('symtex.')
+
+
+PY_SAFE = {'wraps', 'update_wrapper', 'namedtuple', 'partial'}
+
+
+def _call_foreign(f, a, k):
+    m = EXTRA_MODELS.get(id(f))
+    if m is not None:
+        return m(*a, **k)
+    if getattr(f, '__name__', '') in PY_SAFE:
+        return f(*a, **k)
+    if has_symbolic(a) or (k and has_symbolic(tuple(k.values()))):
+        raise Unsupported('uninstrumented function %s.%s on symbolic data' % (getattr(f, '__module__', '?'), getattr(f, '__name__', '?')))
+    return f(*a, **k)
+
+
 def _call_other(f, tf, a, k):
     if tf is types.MethodWrapperType:
         return _call_builtin(f, f.__self__, a, k)
@@ -534,3 +564,88 @@ def _call_other(f, tf, a, k):
     if m is not None:
         return m(*a, **k)
     return f(*a, **k)
+
+
+# ---------------------------------------------------------------------- re.finditer (small pattern family, C13)
+import re as _re
+
+
+class _Match:
+    def __init__(self, text, start, end):
+        self._t, self._s, self._e = text, start, end
+
+    def group(self, *a):
+        return self._t[self._s:self._e]
+
+    def start(self, *a):
+        return self._s
+
+    def end(self, *a):
+        return self._e
+
+    def span(self, *a):
+        return (self._s, self._e)
+
+
+def _parse_pattern(p):
+    """supported: a literal string without metacharacters, or one atom (literal char or [..] class) followed by +"""
+    if isinstance(p, _re.Pattern):
+        if p.flags & ~_re.UNICODE:
+            raise Unsupported('regex flags on symbolic text')
+        p = p.pattern
+    if not isinstance(p, str) or tagged(p):
+        raise Unsupported('regex pattern')
+    meta = set('.^$*+?{}[]\\|()')
+    if p and not (set(p) & meta):
+        return ('lit', p)
+    if p.endswith('+') and len(p) >= 2:
+        atom = p[:-1]
+        if len(atom) == 1 and atom not in meta:
+            return ('plus', ((ord(atom), ord(atom)),))
+        if atom[0] == '[' and atom[-1] == ']' and '^' not in atom and '\\' not in atom and '[' not in atom[1:]:
+            body = atom[1:-1]
+            rs = []
+            i = 0
+            while i < len(body):
+                if i + 2 < len(body) and body[i + 1] == '-':
+                    rs.append((ord(body[i]), ord(body[i + 2])))
+                    i += 3
+                else:
+                    rs.append((ord(body[i]), ord(body[i])))
+                    i += 1
+            return ('plus', tuple(rs))
+    raise Unsupported('regex %r outside the modelled family' % p)
+
+
+def re_finditer(pattern, string, flags=0):
+    if not (isinstance(string, str) and tagged(string)):
+        return _re.finditer(pattern, string, flags)
+    if flags:
+        raise Unsupported('regex flags on symbolic text')
+    kind, spec = _parse_pattern(pattern)
+    text = raw(string)
+    n = len(text)
+    out = []
+    i = 0
+    if kind == 'lit':
+        m = len(spec)
+        while i <= n - m:
+            if R.ST.decide(s_eq(text[i:i + m], spec)):
+                out.append(_Match(text, i, i + m))
+                i += m
+            else:
+                i += 1
+    else:
+        while i < n:
+            j = i
+            while j < n and R.ST.decide(R.ch_in(text[j], spec)):
+                j += 1
+            if j > i:
+                out.append(_Match(text, i, j))
+                i = j
+            else:
+                i += 1
+    return iter(out)
+
+
+EXTRA_MODELS[id(_re.finditer)] = re_finditer
